@@ -57,8 +57,12 @@ def cliDispatch (st : CliSession) (verb head payload : String) : CliSession × S
          | some t, some lasted =>
            let (c1, r) := c.transitionTo t lasted
            let (c2, s) := cliStatus c1 (resText r)
-           ({ cli := some c2 }, s)
+           -- `measure`: echo the connection age the environment supplied, as the facade reports the one it measured
+           let since := if (kv.get "measure").isSome then
+               (if c.connectedAt then s!" since={lasted.getD 0}" else " since=none") else ""
+           ({ cli := some c2 }, s ++ since)
          | _, _ => (st, "res=bad-request"))
+      | "cli.sleep" => (st, "res=ok")
       | "cli.error" =>
         let kind := if kv.get "kind" == some "establish" then "ConnectionEstablishmentFailure" else "ConnectionClosed"
         ({ cli := some (c.applyError kind) }, "res=ok")
